@@ -126,3 +126,24 @@ func AssumeRecordInvalid(dmg []byte, pos int, orig []byte) {
 	stored := binary.BigEndian.Uint32(dmg[pos:])
 	vrt.Assume(stored != vrt.CRC32C(dmg[pos+4:end]))
 }
+
+// AssumeRecordInvalidIfChanged: as AssumeRecordInvalid, but only when a byte of
+// the original record at pos (original framing) or of the record as framed by
+// the damaged size fields differs from the original bytes.
+func AssumeRecordInvalidIfChanged(dmg []byte, pos int, orig []byte) {
+	if pos+28 > len(dmg) {
+		return
+	}
+	ks := int(int32(binary.BigEndian.Uint32(dmg[pos+20:])))
+	vs := int(int32(binary.BigEndian.Uint32(dmg[pos+24:])))
+	if ks < 0 || vs < 0 || ks+vs > len(dmg) {
+		return
+	}
+	end := pos + 36 + ks + vs
+	if end > len(dmg) {
+		return
+	}
+	same := vrt.BytesEqual(dmg[pos:end], orig[pos:end])
+	stored := binary.BigEndian.Uint32(dmg[pos:])
+	vrt.Assume(vrt.Or(same, stored != vrt.CRC32C(dmg[pos+4:end])))
+}
